@@ -14,7 +14,7 @@ package main
 // Input line (k=v tokens, all byte strings in hex):
 //
 //	fmt=uri|uripost|raw  k=<limit> pre=0|1 file=<hex> [cfgh=<n>/<hex,hex>]   (cfgh: the provider's `headers` option, strings "[key: value]")
-//	    [lim0=1] (Limit = 0, exactly k taken) [rd=<n>] (short reads) [cons=<n>] (n concurrent consumers: reqs= is the sorted multiset) [win=<n>] (n deliveries in flight)
+//	    [lim0=1] (Limit = 0, exactly k taken) [rd=<n>] (short reads) [eofd=1] (the last Read returns data together with io.EOF) [cons=<n>] (n concurrent consumers: reqs= is the sorted multiset) [win=<n>] (n deliveries in flight)
 //	    items=<it;it;…> lead=<pad,pad> per=<pre:post:i1:i2:i3:i4:blank,blank;…> fnl=0|1 trail=<pad> [tbl=<frame>>canon;…]
 //	    it = h:<key>:<val> | r:<uri>:<tag>[:<body>] | f:<tag>:<frame>
 //	    (items/lead/per/fnl/trail are absent on the malformed stream: differential only)
@@ -50,7 +50,6 @@ import (
 	"github.com/spf13/afero"
 	phttp "github.com/yandex/pandora/components/providers/http"
 	"github.com/yandex/pandora/components/providers/http/config"
-	"github.com/yandex/pandora/components/providers/http/decoders/raw"
 	"github.com/yandex/pandora/core"
 	"github.com/yandex/pandora/core/aggregator/netsample"
 	"go.uber.org/zap"
@@ -329,19 +328,65 @@ func (f *shortFile) Read(p []byte) (int, error) {
 	return f.File.Read(p)
 }
 
+// eofFs: the ammo file is opened through a file whose LAST successful Read returns its bytes together with io.EOF
+// (`n > 0, io.EOF`), which the io.Reader contract explicitly allows ("a Reader returning a non-zero number of bytes at
+// the end of the input stream may return either err == EOF or err == nil") and which files behind FUSE / network file
+// systems and many in-memory readers do.  bufio hands such a result through unchanged when it reads straight into the
+// caller's buffer (reads of at least its buffer size), so hand-written read loops meet it.
+type eofFs struct {
+	afero.Fs
+}
+
+func (s eofFs) Open(name string) (afero.File, error) {
+	f, err := s.Fs.Open(name)
+	if err != nil {
+		return nil, err
+	}
+	st, err := f.Stat()
+	if err != nil {
+		return nil, err
+	}
+	return &eofFile{File: f, size: st.Size()}, nil
+}
+
+type eofFile struct {
+	afero.File
+	size, pos int64
+}
+
+func (f *eofFile) Read(p []byte) (int, error) {
+	n, err := f.File.Read(p)
+	f.pos += int64(n)
+	if err == nil && n > 0 && f.pos >= f.size {
+		err = io.EOF
+	}
+	return n, err
+}
+
+func (f *eofFile) Seek(offset int64, whence int) (int64, error) {
+	pos, err := f.File.Seek(offset, whence)
+	if err == nil {
+		f.pos = pos
+	}
+	return pos, err
+}
+
 // runProvider drains the real provider. unlimited: the provider runs with Limit = 0 (no limit) and exactly k requests are
 // taken before the run is cancelled (only for files on which no decoder error is expected).
 // window > 1: the consumer keeps up to `window` acquired ammo in flight (acquired, request not yet read, not released)
 // before it reads them in order - what an instance pool does while requests are on the wire. Deliveries that share state
 // (one reader, one buffer, one ammo object handed out twice) show up deterministically this way.
-func runProvider(dec config.DecoderType, file []byte, k int, preload bool, headers []string, unlimited bool, maxRead int, consumers int, window int) string {
+func runProvider(dec config.DecoderType, file []byte, k int, preload bool, headers []string, unlimited bool, maxRead int, consumers int, window int, eofData bool) string {
 	mem := afero.NewMemMapFs()
 	if err := afero.WriteFile(mem, "/ammo", file, 0o644); err != nil {
 		panic(err)
 	}
 	var fs afero.Fs = mem
+	if eofData {
+		fs = eofFs{Fs: fs}
+	}
 	if maxRead > 0 {
-		fs = shortFs{Fs: mem, max: maxRead}
+		fs = shortFs{Fs: fs, max: maxRead}
 	}
 	conf := config.Config{Decoder: dec, File: "/ammo", Limit: uint(k), Preload: preload, Headers: headers}
 	want := k + 4
@@ -595,15 +640,16 @@ func c07Run(input string) string {
 	rd, _ := strconv.Atoi(kv["rd"])
 	cons, _ := strconv.Atoi(kv["cons"])
 	win, _ := strconv.Atoi(kv["win"])
+	eofd := kv["eofd"] == "1"
 	switch kv["fmt"] {
 	case "uri":
-		return runProvider(config.DecoderURI, unhx(kv["file"]), k, pre, cfg, unl, rd, cons, win)
+		return runProvider(config.DecoderURI, unhx(kv["file"]), k, pre, cfg, unl, rd, cons, win, eofd)
 	case "uripost":
-		return runProvider(config.DecoderURIPost, unhx(kv["file"]), k, pre, cfg, unl, rd, cons, win)
+		return runProvider(config.DecoderURIPost, unhx(kv["file"]), k, pre, cfg, unl, rd, cons, win, eofd)
 	case "raw":
-		return runProvider(config.DecoderRaw, unhx(kv["file"]), k, pre, cfg, unl, rd, cons, win)
+		return runProvider(config.DecoderRaw, unhx(kv["file"]), k, pre, cfg, unl, rd, cons, win, eofd)
 	case "json":
-		return runProvider(config.DecoderJSONLine, renderJSON(kv), k, pre, cfg, unl, rd, cons, win)
+		return runProvider(config.DecoderJSONLine, renderJSON(kv), k, pre, cfg, unl, rd, cons, win, eofd)
 	}
 	return "err=badinput n=0 reqs="
 }
@@ -626,6 +672,9 @@ func c07Class(input, obs string) string {
 	}
 	if kv["rd"] != "" {
 		c += "/shortreads"
+	}
+	if kv["eofd"] != "" {
+		c += "/eof-with-data"
 	}
 	if kv["cons"] != "" {
 		c += "/consumers"
@@ -747,6 +796,10 @@ func randBody(r *rand.Rand) []byte {
 
 var methodPool = []string{"GET", "POST", "PUT", "DELETE", "PATCH", "HEAD", "OPTIONS", "PURGE", ""}
 
+// frameHdrNames: header names of generated frames (several spellings of one name: they make one multi-valued header;
+// Connection / Cookie / Content-Type: headers a "clean-up" of the decoded request would be tempted to touch)
+var frameHdrNames = []string{"X-A", "x-b", "User-Agent", "Accept", "X-A", "x-a", "Connection", "content-type", "X_y", "accept-ENCODING", "Cookie", "Authorization"}
+
 func randFrame(r *rand.Rand) []byte {
 	m := methodPool[r.Intn(len(methodPool)-1)]
 	u := uriPool[r.Intn(len(uriPool))]
@@ -758,18 +811,29 @@ func randFrame(r *rand.Rand) []byte {
 	if r.Intn(3) == 0 {
 		ver = "HTTP/1.0"
 	}
+	// blanks an author may put around a header value (`Key:value`, `Key:   value  `, a TAB)
+	gap := func() string { return []string{" ", " ", " ", "", "  ", "\t", " \t "}[r.Intn(7)] }
+	post := func() string { return []string{"", "", "", " ", "\t", "  "}[r.Intn(6)] }
 	s := m + " " + u + " " + ver + eol
 	if r.Intn(5) > 0 {
-		s += "Host: " + []string{"example.com", "h.x:8080", "10.0.0.1"}[r.Intn(3)] + eol
+		s += []string{"Host", "Host", "host", "HOST"}[r.Intn(4)] + ":" + gap() + []string{"example.com", "h.x:8080", "10.0.0.1"}[r.Intn(3)] + post() + eol
 	}
-	nh := r.Intn(3)
+	nh := r.Intn(4)
 	for i := 0; i < nh; i++ {
-		s += []string{"X-A", "x-b", "User-Agent", "Accept", "X-A"}[r.Intn(5)] + ": " + hvalPool[1+r.Intn(len(hvalPool)-1)] + eol
+		name := frameHdrNames[r.Intn(len(frameHdrNames))]
+		val := hvalPool[r.Intn(len(hvalPool))]
+		switch name {
+		case "Connection":
+			val = []string{"close", "keep-alive", "Keep-Alive, Upgrade"}[r.Intn(3)]
+		case "Cookie":
+			val = "a=b; c=d"
+		}
+		s += name + ":" + gap() + val + post() + eol
 	}
 	var body []byte
 	if m == "POST" || m == "PUT" || m == "PATCH" || r.Intn(6) == 0 {
 		body = randBody(r)
-		s += "Content-Length: " + strconv.Itoa(len(body)) + eol
+		s += []string{"Content-Length", "Content-Length", "content-length"}[r.Intn(3)] + ":" + gap() + strconv.Itoa(len(body)) + eol
 	}
 	s += eol
 	return append([]byte(s), body...)
@@ -854,8 +918,8 @@ func randItems(r *rand.Rand, format string, nreq int) []item {
 	return items
 }
 
-// frameTable: what the library (http.ReadRequest via raw.DecodeRequest) makes of each frame; the Lean model treats a
-// frame as opaque bytes and looks it up here. The provider's `headers` option (EnrichRequestWithHeaders in
+// frameTable: what the library (net/http.ReadRequest, called here directly) makes of each frame; the Lean side reads plain
+// frames itself (Pandora.Model.C07Frame `frameReq`, must agree with this table) and looks the others up here. The provider's `headers` option (EnrichRequestWithHeaders in
 // RawAmmo.BuildRequest) is NOT applied here: the Lean side does that itself (Spec.enrichCanon).
 func frameTable(frames [][]byte) string {
 	seen := map[string]bool{}
@@ -865,7 +929,8 @@ func frameTable(frames [][]byte) string {
 			continue
 		}
 		seen[string(f)] = true
-		req, err := raw.DecodeRequest(f)
+		// the LIBRARY's reading of the frame (not the code under test: raw.DecodeRequest post-processes this)
+		req, err := http.ReadRequest(bufio.NewReader(bytes.NewReader(f)))
 		if err != nil {
 			out = append(out, hx(f)+">!")
 			continue
@@ -1030,6 +1095,10 @@ func c07GenAll(r *rand.Rand, tier string) []string {
 		if r2.Intn(3) == 0 && !strings.Contains(out[i], " rd=") {
 			out[i] += fmt.Sprintf(" rd=%d", readSizes[r2.Intn(len(readSizes))])
 		}
+		// one case in five: the file's last Read returns its data together with io.EOF
+		if r2.Intn(5) == 0 && !strings.Contains(out[i], " eofd=") {
+			out[i] += " eofd=1"
+		}
 		// one well-formed case in six is drained by 2-4 concurrent consumers (entries known, no frame that is not a request)
 		wf := strings.Contains(out[i], " items=") || strings.HasPrefix(out[i], "fmt=json ")
 		if strings.Contains(out[i], " cons=") {
@@ -1163,7 +1232,7 @@ func c07Streams(r *rand.Rand, tier string) []string {
 		out = append(out, malformedLine(f, file, frames, limitFor(len(items)), nil))
 	}
 	// 6 bodies / frames larger than the decoders' read chunk (1 MiB): readSized assembles them chunk-wise
-	bigSizes := []int{1<<20 + 5}
+	bigSizes := []int{1<<20 + 5, 1 << 20}
 	if thorough {
 		bigSizes = []int{1 << 20, 1<<20 + 1, 2 << 20, 5<<19 + 7}
 	}
@@ -1198,6 +1267,29 @@ func c07Streams(r *rand.Rand, tier string) []string {
 			fitems := append(randItems(r, "raw", 1), item{kind: 'f', b: []byte("mid"), c: frame})
 			fitems = append(fitems, randItems(r, "raw", 1+r.Intn(2))...)
 			out = append(out, caseLine("raw", fitems, randLayout(r, flagsOf(r.Intn(32)), len(fitems)), i%4 == 2, nil))
+		}
+	}
+	// 12 a body / frame larger than the bufio buffer as the LAST bytes of the file (no final newline), the file's last Read
+	// returning data together with io.EOF: the end of the input reaches the size-prefixed reader in the middle of a payload
+	nlastbig := 4
+	if thorough {
+		nlastbig = 48
+	}
+	for i := 0; i < nlastbig; i++ {
+		n := midSizes[(i+3)%len(midSizes)]
+		body := fill(r, n, alnum+"\n\n [:]\r")
+		items := randItems(r, "uripost", 1+r.Intn(2))
+		items = append(items, item{kind: 'r', a: []byte("/lastbig?n=" + strconv.Itoa(n)), b: []byte("last " + strconv.Itoa(i)), c: body})
+		lay := randLayout(r, flagsOf(r.Intn(16)), len(items)) // fnl = false
+		line := caseLine("uripost", items, lay, i%3 == 1, randCfgSmall(r)) + " eofd=1"
+		if i%2 == 1 {
+			line += fmt.Sprintf(" rd=%d", []int{4096, 4097, 8192, 65536}[(i/2)%4])
+		}
+		out = append(out, line)
+		if i%2 == 0 {
+			frame := append([]byte("PUT /lastbig HTTP/1.1\r\nHost: h\r\nContent-Length: "+strconv.Itoa(n)+"\r\n\r\n"), body...)
+			fitems := append(randItems(r, "raw", 1+r.Intn(2)), item{kind: 'f', b: []byte("last"), c: frame})
+			out = append(out, caseLine("raw", fitems, randLayout(r, flagsOf(r.Intn(16)), len(fitems)), i%4 == 2, nil)+" eofd=1")
 		}
 	}
 	// 11 many deliveries under concurrent consumers: 4 consumers drain dozens of passes of a short file (what an instance
